@@ -33,7 +33,13 @@
        hready     pop / cancel returned the result: a = 1 iff the result is what the OS did
        hbufdrop   the operation's buffer was dropped
        hdrvdrop   the Proactor is about to be dropped
-       hend       end of the run: everything has been dropped                               *)
+       hend       end of the run: everything has been dropped
+       hsetw      the submitter registered waker a for the pending operation (Proactor::update_waker, what a
+                  future does whenever its poll returns Pending); a new poll may bring another waker (the future
+                  moved to another task)
+       hwoken     waker a of the operation was invoked (recorded by the waker itself)
+       hwchk      end of a harness step while the submitter still holds the key: a stored result must have
+                  woken the waker of the LATEST registration                                   *)
 EXTENDS Integers, Sequences, FiniteSets, TLC
 
 CONSTANTS Ops            \* set of operation identities
@@ -47,6 +53,9 @@ MonInit == [ alloc   |-> [o \in Ops |-> 0],        \* 0 never, 1 live, 2 freed
              results |-> [o \in Ops |-> 0],
              taken   |-> [o \in Ops |-> 0],        \* results handed to the submitter
              bufdrop |-> [o \in Ops |-> 0],
+             wk      |-> [o \in Ops |-> 0],        \* waker of the latest registration + 1 (0 none)
+             needw   |-> [o \in Ops |-> FALSE],    \* a result was stored while a waker was registered
+             wokeok  |-> [o \in Ops |-> FALSE],    \* ... and that waker has been invoked since
              ring    |-> "open",
              ended   |-> FALSE,
              viol    |-> {} ]
@@ -68,7 +77,7 @@ Ev(m, e) ==
                                m.frees[o] >= 1 \/ m.alloc[o] # 1, "double-free", o),
                                m.user[o], "free-under-submitter", o)]
     [] e.ev = "result" ->
-         [m EXCEPT !.results[o] = @ + 1,
+         [m EXCEPT !.results[o] = @ + 1, !.needw[o] = (m.wk[o] # 0), !.wokeok[o] = FALSE,
                    !.viol = V2(V2(m.viol, m.results[o] >= 1, "double-result", o),
                                m.alloc[o] # 1, "result-on-dead-op", o)]
     [] e.ev = "cancelled" -> [m EXCEPT !.viol = V(m, m.alloc[o] # 1, "cancel-on-dead-op", o)]
@@ -111,6 +120,15 @@ Ev(m, e) ==
          [m EXCEPT !.bufdrop[o] = @ + 1,
                    !.viol = V2(V2(m.viol, OsBusy(m, o), "buffer-dropped-while-os-holds", o),
                                m.bufdrop[o] >= 1, "buffer-dropped-twice", o)]
+    [] e.ev = "hsetw" ->
+         \* set_waker is a no-op once the result is stored
+         IF m.results[o] > 0 THEN m
+         ELSE [m EXCEPT !.wk[o] = e.a + 1, !.viol = V(m, m.alloc[o] # 1, "waker-on-dead-op", o)]
+    [] e.ev = "hwoken" ->
+         [m EXCEPT !.wokeok[o] = (e.a + 1 = m.wk[o]) \/ @,
+                   !.viol = V(m, m.user[o] /\ e.a + 1 # m.wk[o], "stale-waker-woken", o)]
+    [] e.ev = "hwchk" ->
+         [m EXCEPT !.viol = V(m, m.user[o] /\ m.needw[o] /\ ~m.wokeok[o], "waiter-not-woken", o)]
     [] e.ev = "hdrvdrop" -> m
     [] e.ev = "hend" ->
          [m EXCEPT !.ended = TRUE,
